@@ -151,6 +151,16 @@ class PathEnum:
         ds = strip(d)
         if ds[0] == 'discr':
             pl_s = render(strip(ds[1]))
+            # a multiply-assigned enum local that currently holds a copy of another place: describe that place
+            if pre is not None and is_local(t['discr'][1]):
+                dd0 = self.fn.single_def(t['discr'][1][0])
+                if dd0 is not None and dd0[1] != 'T':
+                    n0 = self.fn.def_node(dd0)
+                    if n0['rv']['r'] == 'discr' and len(n0['rv']['p']) == 1:
+                        from .facts import pkey as _pk
+                        v0 = pre.get(_pk(n0['rv']['p']))
+                        if v0 is not None and v0[0] == 'site' and v0[2] != 'T':
+                            pl_s = render(strip(self.sym.rvalue(self.fn.blocks[v0[1]]['s'][v0[2]]['rv'])))
             # find the discriminated place to learn variant names
             adt = None
             dl = t['discr'][1]
